@@ -39,7 +39,7 @@ def check(run, tier):
     # name may have 64 characters), different case, trailing blank.  "Owner" means the exact identity that created the object.
     long_ = "u" * 58
     alike = [(long_ + "-A", None), (long_ + "-B", None), (long_ + "-B", ["gA"]), ("Alice", None), ("alice", None), ("alice ", None)]
-    traces += E.random_histories(run, 24 if quick else 160, m, common.SEED + 7, pols=allp, genkw={
+    traces += E.random_histories(run, 24 if quick else 160, m, common.SEED + 7, pols=allp, prefix="alike", genkw={
         "weights": w, "idents": alike, "policies": ["default", "default", "grouped", "partial", "open"]})
     E.judge(run, traces, only=ONLY, name="c03")
     E.summarise(run, traces)
